@@ -35,3 +35,9 @@ int verif_ctl_last_byte(const cbor_item_t* item) {
   const unsigned char* text = cbor_string_handle(item);
   return text[cbor_string_length(item) - 1];
 }
+
+/* C13.no-orphan: a fresh block installed over whatever the field held */
+void verif_ctl_orphan(cbor_item_t* item) {
+  unsigned char* fresh = _cbor_malloc(8);
+  if (fresh != NULL) item->data = fresh;
+}
